@@ -49,6 +49,7 @@ type csvDoc struct {
 	headers                        bool // header row written in the document (false: passed through csv.Headers)
 	delim                          byte
 	headersWithOptions             bool
+	emptyHeadersOption             bool
 	crlf                           bool
 	finalNL                        bool
 	quoting                        int // 0 needed, 1 always, 2 random
@@ -215,6 +216,7 @@ func genDoc(rng *rand.Rand, class string) *csvDoc {
 		d.headers = false
 		d.headersWithOptions = true
 	}
+	d.emptyHeadersOption = d.headers && rng.Intn(12) == 0
 	for r := 0; r < nrows; r++ {
 		row := make([]string, ncols)
 		for i := range row {
@@ -226,6 +228,14 @@ func genDoc(rng *rand.Rand, class string) *csvDoc {
 				}
 			case "float":
 				row[i] = cellFloats[rng.Intn(len(cellFloats))]
+				if rng.Intn(4) == 0 {
+					// full-precision decimals as serialisers print them (15 to 17 significant digits)
+					v := (rng.Float64()*2 - 1) * []float64{1, 100, 1e4, 1e8, 1e-3}[rng.Intn(5)]
+					if rng.Intn(3) == 0 {
+						v = float64(rng.Intn(1000)) / 7
+					}
+					row[i] = strconv.FormatFloat(v, 'f', -1, 64)
+				}
 				if rng.Intn(3) == 0 {
 					row[i] = cellInts[rng.Intn(len(cellInts))]
 				}
@@ -418,6 +428,10 @@ func (d *csvDoc) config() []csv.ConfigFunc {
 	fns := []csv.ConfigFunc{csv.EmptyNull(d.emptyNull), csv.IgnoreEmptyLines(d.ignoreEmpty)}
 	if d.delim != ',' {
 		fns = append(fns, csv.Delimiter(d.delim))
+	}
+	if d.headers && d.emptyHeadersOption {
+		// an empty list of names is no list of names: the header is in the document
+		fns = append(fns, csv.Headers([]string{}))
 	}
 	if !d.headers {
 		// ReadCSV may rename entries of the slice it is given: hand over a copy every time
